@@ -195,3 +195,199 @@ Example C03_ex_parse :
   /\ parse_rows [([65;78;84], [49;50])] = [([65;78;84], [49;50])].
 Proof. vm_compute. split; reflexivity. Qed.
 Print Assumptions C03_ex_parse.
+
+(* ======================================================================================================
+   The whitelist FILE reader at character level (Model/C03x.v): BarcodeParser.parse_barcode_file and, composed
+   with the tables above, parse_pending_barcode_file_of_alias / __init__.
+   Vocabulary:
+     text                      the decoded content of the barcode file (code points); plain and .gz files differ
+                               only in how the text is obtained
+     split_lines text          the lines `for line in f` yields (universal newlines, terminator handed over as \n)
+     parts_of line             the columns as coded: line.strip().split() and the `' ' in line` re-split
+     parse_file maxd text      the (barcode, index) sequence of addBarcode calls, None = ValueError;
+                               maxd = sys.get_int_max_str_digits() (0 = unlimited); index = IInt z | IStr token
+     print_rows rows           any lines of tokens: lead ++ tokens joined by sep ++ trail ++ eol per row
+     rows_okb rows             lead/sep/trail are white space other than \n \r, sep non-empty, tokens non-empty without
+                               white space, eol is \n, \r\n or a lone \r; the last row may end without terminator
+     print_wl ly ws            a whitelist ws = [(decoration, (index, barcode))] printed one-column / barcode-first /
+                               index-first; wl_okb: rows_okb + barcodes non-empty over ACGTN + printable indices
+                               (1 column: the index IS the line number)
+     degenerate ws             some index is printed as a token of column-class letters (ATCGNX) only
+   ====================================================================================================== *)
+From SCMO Require Import Model.C03x Proofs.C03x Proofs.C03x_b.
+
+(* ---- T: the pieces of parse_barcode_file REGENERATED from the source have the shape the proofs use; the
+   white-space class (str.isspace, by reflection) contains blank, tab, \n and \r *)
+Theorem C03_T_file_kernel : forall n i,
+  gen_is_single n = (n =? 1) /\ gen_is_pair n = (n =? 2) /\ gen_lineno_index i = i + 1 /\
+  gen_resplit_char = 32 /\ gen_column_class = [65; 84; 67; 71; 78; 88] /\
+  is_space 32 = true /\ is_space 9 = true /\ is_space 10 = true /\ is_space 13 = true.
+Proof.
+  intros n i.
+  exact (conj (gen_is_single_shape n) (conj (gen_is_pair_shape n) (conj (gen_lineno_index_shape i)
+        (conj gen_resplit_char_shape (conj eq_refl space_facts))))).
+Qed.
+Print Assumptions C03_T_file_kernel.
+
+(* the `if len(parts) == 1 and ' ' in line: parts = line.strip().split(' ')` fallback is dead code and strip()
+   before split() changes nothing: for EVERY line the columns are line.split() *)
+Theorem C03_file_parts_are_split : forall line, parts_of line = split_ws line.
+Proof. exact parts_of_eq. Qed.
+Print Assumptions C03_file_parts_are_split.
+
+(* tokenisation round trip, by induction over lines and characters: printing any rows of tokens with admissible
+   white space / line ends and reading them as parse_barcode_file does gives back the tokens of every row
+   (blank rows, rows of 3+ tokens, trailing white space, \r\n and \r line ends, no final newline included) *)
+Theorem C03_file_tokenise_printed : forall rows,
+  rows_okb rows = true -> file_parts (print_rows rows) = map r_toks rows.
+Proof. exact tokenise_printed. Qed.
+Print Assumptions C03_file_tokenise_printed.
+
+(* ValueError exactly when some line has no column (blank line) or more than two *)
+Theorem C03_file_raises_iff : forall maxd rows, rows_okb rows = true ->
+  (parse_file maxd (print_rows rows) = None <->
+   exists r, In r rows /\ length (r_toks r) <> 1%nat /\ length (r_toks r) <> 2%nat).
+Proof. exact file_raises_iff. Qed.
+Print Assumptions C03_file_raises_iff.
+
+(* EVERY two-column file of admissible tokens, exactly: it is read barcode-first iff SOME first-column token
+   consists of column-class characters only; the index is int(token) when int() accepts the token *)
+Theorem C03_file_two_column_exact : forall maxd (drows : list (row * (str * str))),
+  let rows := map (fun dr => mkRow (r_lead (fst dr)) [fst (snd dr); snd (snd dr)] (r_sep (fst dr))
+                                   (r_trail (fst dr)) (r_eol (fst dr))) drows in
+  let pairs := map snd drows in
+  rows_okb rows = true ->
+  parse_file maxd (print_rows rows) =
+  Some (if existsb (fun p => is_barcode_token (fst p)) pairs
+        then map (fun p => (fst p, index_rule maxd (snd p))) pairs
+        else map (fun p => (snd p, index_rule maxd (fst p))) pairs).
+Proof. exact two_column_exact. Qed.
+Print Assumptions C03_file_two_column_exact.
+
+(* the index rule of the code (int(token) when int() accepts the token, else the token) is inverted by printing:
+   int(str(z)) = z for every integer z whose decimal form is within the interpreter's digit limit, and a name
+   int() refuses stays itself *)
+Theorem C03_index_rule_print : forall maxd ix, idx_okb maxd ix = true -> index_rule maxd (print_index ix) = ix.
+Proof. exact index_rule_print. Qed.
+Print Assumptions C03_index_rule_print.
+
+(* PRINT / PARSE ROUND TRIP, all three layouts: the addBarcode sequence is exactly the whitelist, in file order
+   (repeated lines included).  Index-first needs the file not to be degenerate. *)
+Theorem C03_file_roundtrip : forall maxd ly ws,
+  wl_okb maxd ly ws = true -> (ly = LIndexFirst -> degenerate ws = false) ->
+  parse_file maxd (print_wl ly ws) = Some (map swap_w ws).
+Proof. exact file_roundtrip. Qed.
+Print Assumptions C03_file_roundtrip.
+
+(* index-first files exactly, degenerate or not: a degenerate file is read with the columns exchanged - the
+   index names become the barcodes and the barcodes become (string) indices *)
+Theorem C03_file_index_first_exact : forall maxd ws, wl_okb maxd LIndexFirst ws = true ->
+  parse_file maxd (print_wl LIndexFirst ws) =
+  Some (if degenerate ws then map (fun w => (print_index (wix w), IStr (wbc w))) ws else map swap_w ws).
+Proof. exact file_index_first_exact. Qed.
+Print Assumptions C03_file_index_first_exact.
+
+(* the detected column order (indexNotFirst) of a printed whitelist *)
+Theorem C03_file_detect : forall maxd ly ws, wl_okb maxd ly ws = true ->
+  file_index_not_first (file_parts (print_wl ly ws)) =
+  match ly with LOne => false | LBarcodeFirst => negb (is_nil ws) | LIndexFirst => degenerate ws end.
+Proof. exact file_detect. Qed.
+Print Assumptions C03_file_detect.
+
+(* the degenerate files characterised: some index is a STRING of column-class letters; an integer index never is
+   (and a barcode column made of digits cannot be mistaken either: C03_parse_index_first above) *)
+Theorem C03_file_degenerate_iff : forall ws,
+  degenerate ws = true <-> exists w s, In w ws /\ wix w = IStr s /\ is_barcode_token s = true.
+Proof. exact degenerate_iff. Qed.
+Print Assumptions C03_file_degenerate_iff.
+
+(* REFUTED without the hypothesis: the round trip and "exact members map to themselves" fail for the index-first
+   file  "1\tCC\nN\tAA\n"  - the index name N flips the whole file, AA is not found any more *)
+Theorem C03_file_index_first_degenerate_refuted :
+  wl_okb 4300 LIndexFirst ws_degenerate = true /\
+  parse_file 4300 (print_wl LIndexFirst ws_degenerate) <> Some (map swap_w ws_degenerate) /\
+  parse_file 4300 (print_wl LIndexFirst ws_degenerate) = Some [([49], IStr [67; 67]); ([78], IStr [65; 65])] /\
+  exists t, file_tables (num_of_table [([65; 65], 7); ([67; 67], 8)]) 4300 1 (print_wl LIndexFirst ws_degenerate) = Some (Ok t) /\
+            In [65; 65] (map wbc ws_degenerate) /\ lookup t [65; 65] = None.
+Proof. exact file_index_first_degenerate_refuted. Qed.
+Print Assumptions C03_file_index_first_degenerate_refuted.
+
+(* END TO END, file -> lookup: for every printed whitelist file (any layout, any admissible white space and line
+   ends), every numbering num of the indices, every k and every observed string over ACGTN, reading the file,
+   expanding and looking up returns (i, b, d) iff b is the unique nearest listed barcode within k, d its distance
+   and i the (number of the) index on the LAST line that lists b *)
+Theorem C03_file_lookup_iff : forall num maxd k ly ws q,
+  wl_okb maxd ly ws = true -> (ly = LIndexFirst -> degenerate ws = false) -> in_alphabet q = true ->
+  exists t, file_tables num maxd k (print_wl ly ws) = Some (Ok t) /\
+  forall i b d,
+    lookup t q = Some (i, b, d) <->
+    (In b (map wbc ws) /\ length q = length b /\ d = hamming q b /\ (d <= k)%nat /\
+     forall b', In b' (map wbc ws) -> b' <> b -> length b' = length q -> (d < hamming q b')%nat)
+    /\ exists ix, index_ofx (map swap_w ws) b = Some ix /\ i = num ix.
+Proof. exact file_lookup_iff. Qed.
+Print Assumptions C03_file_lookup_iff.
+
+Theorem C03_file_exact_self : forall num maxd k ly ws b,
+  wl_okb maxd ly ws = true -> (ly = LIndexFirst -> degenerate ws = false) -> In b (map wbc ws) ->
+  exists t ix, file_tables num maxd k (print_wl ly ws) = Some (Ok t) /\
+               index_ofx (map swap_w ws) b = Some ix /\ lookup t b = Some (num ix, b, 0%nat).
+Proof. exact file_exact_self. Qed.
+Print Assumptions C03_file_exact_self.
+
+(* ANY file text: the lazily loaded alias (pending file, parsed + expanded at the first touch) answers every
+   history of operations like the eagerly loaded one (counts masked); both refuse exactly the files parse refuses *)
+Theorem C03_file_lazy_eq_eager : forall num maxd k text ops,
+  match file_run num maxd k true text ops, file_run num maxd k false text ops with
+  | Some a, Some b => map mask a = map mask b
+  | None, None => parse_file maxd text = None
+  | _, _ => False
+  end.
+Proof. exact file_lazy_eq_eager. Qed.
+Print Assumptions C03_file_lazy_eq_eager.
+
+(* ---- non-vacuity.  An index-first file with every kind of decoration:
+     "1\tAAA\n" ; " 12  AAT \t\r\n" ; "c3\tTTT\r" ; "-4 ANA" (no final newline) ; AAT listed again with index 007? no:
+   indices 1, 12, c3 (a name), -4;  barcodes AAA AAT TTT ANA *)
+Definition ex_ws : list wrow :=
+  [(mkDeco [] [9] [] [10], (IInt 1, [65;65;65]));
+   (mkDeco [32] [32;32] [32;9] [13;10], (IInt 12, [65;65;84]));
+   (mkDeco [] [9] [] [13], (IStr [99;51], [84;84;84]));
+   (mkDeco [160] [32] [] [], (IInt (-4), [65;78;65]))].
+
+Example C03_ex_file_index_first :
+  wl_okb 4300 LIndexFirst ex_ws = true /\ degenerate ex_ws = false /\
+  print_wl LIndexFirst ex_ws =
+    [49;9;65;65;65;10; 32;49;50;32;32;65;65;84;32;9;13;10; 99;51;9;84;84;84;13; 160;45;52;32;65;78;65] /\
+  parse_file 4300 (print_wl LIndexFirst ex_ws) =
+    Some [([65;65;65], IInt 1); ([65;65;84], IInt 12); ([84;84;84], IStr [99;51]); ([65;78;65], IInt (-4))].
+Proof. vm_compute. repeat split; reflexivity. Qed.
+Print Assumptions C03_ex_file_index_first.
+
+(* the same whitelist barcode-first; one column (indices = line numbers 1..3); a blank line and a 3-column line
+   are refused; 007, +7 and 1_0 are read as integers; with a digit limit of 5 a 6-digit token (zeros and all) stays a string, without limit it is an integer *)
+Example C03_ex_file_other_layouts :
+  wl_okb 4300 LBarcodeFirst ex_ws = true /\
+  parse_file 4300 (print_wl LBarcodeFirst ex_ws) = Some (map swap_w ex_ws) /\
+  (let one := [(mkDeco [] [] [] [10], (IInt 1, [65;67])); (mkDeco [9] [] [32] [13;10], (IInt 2, [71;71]));
+               (mkDeco [] [] [] [], (IInt 3, [65;67]))] in
+   wl_okb 0 LOne one = true /\ parse_file 0 (print_wl LOne one) = Some [([65;67], IInt 1); ([71;71], IInt 2); ([65;67], IInt 3)]) /\
+  parse_file 0 [65;67;10;10;71;71;10] = None /\
+  parse_file 0 [49;32;65;67;32;120;10] = None /\
+  index_rule 4300 [48;48;55] = IInt 7 /\ index_rule 4300 [43;55] = IInt 7 /\ index_rule 4300 [49;95;48] = IInt 10 /\
+  index_rule 4300 [49;95;95;48] = IStr [49;95;95;48] /\
+  index_rule 5 [49;50;51;52;53] = IInt 12345 /\ index_rule 5 [49;50;51;52;53;54] = IStr [49;50;51;52;53;54] /\
+  index_rule 5 [48;95;48;48;48;48;49] = IStr [48;95;48;48;48;48;49] /\ index_rule 0 [49;50;51;52;53;54] = IInt 123456.
+Proof. vm_compute. repeat split; reflexivity. Qed.
+Print Assumptions C03_ex_file_other_layouts.
+
+(* file -> lookup: k = 1 on the index-first example file; AAG ties (AAA, AAT), TTA -> TTT with the index NAME c3
+   (numbered 1000003 by this num), NNA -> ANA with index -4 *)
+Example C03_ex_file_lookup :
+  match file_tables (num_of_table [([99;51], 1000003)]) 4300 1 (print_wl LIndexFirst ex_ws) with
+  | Some (Ok t) =>
+      lookup t [65;65;71] = None /\ lookup t [84;84;65] = Some (1000003, [84;84;84], 1%nat) /\
+      lookup t [78;78;65] = Some (-4, [65;78;65], 1%nat) /\ lookup t [65;65;84] = Some (12, [65;65;84], 0%nat)
+  | _ => False
+  end.
+Proof. vm_compute. repeat split; reflexivity. Qed.
+Print Assumptions C03_ex_file_lookup.
